@@ -69,7 +69,9 @@ Predicted(t) ==
              IN  IF k < 0 THEN [ir |-> pre, ok |-> FALSE, removed |-> TRUE]
                  ELSE [ir |-> M!Split(pre, t.args.b, k).ir, ok |-> TRUE, removed |-> TRUE]
         [] t.op = "join_blocks" ->
-             [ir |-> M!Join(pre, t.args.b, t.args.b2), ok |-> M!Joinable(pre, t.args.b, t.args.b2), removed |-> TRUE]
+             \* join_blocks itself has no precondition beyond adjacency: insert() joins the
+             \* patch's first block into its host unconditionally; Joinable guards the clean-up only
+             [ir |-> M!Join(pre, t.args.b, t.args.b2), ok |-> TRUE, removed |-> TRUE]
         [] t.op = "remove_block" ->
              LET r == M!RemoveBlk(pre, t.args.b, t.args.proxy)
              IN  [ir |-> r.ir, ok |-> TRUE, removed |-> r.removed]
